@@ -33,11 +33,12 @@ type case = {
   mutable final : (path * string option) list;       (* None = dir, Some hex = file *)
   mutable result : string;
   mutable dev : n;
+  mutable links : path list;                         (* names that are symbolic links to a regular file: opened by path like any name, never listed by a directory walk *)
 }
 
 let new_case () = { id = ""; torrents = []; scans = []; export = URel; resize = false;
                     fs0 = { fs_nodes = []; fs_data = [] }; pre = []; nodes = []; searches = []; work = []; pev = []; pend = [];
-                    final = []; result = ""; dev = N0 }
+                    final = []; result = ""; dev = N0; links = [] }
 
 let probe_of_string s =
   match String.split_on_char ':' s with
@@ -140,7 +141,7 @@ let validate (c : case) : string =
     (* 3. index: registered set, then ranking / pruning with the observed iteration order *)
     let lens = unique_lengths es in
     let files_under = List.filter_map (fun (p, nd) -> match nd with
-        | NFile i when List.exists (fun s -> match s with UAbs sp -> starts_with sp p | URel -> false) scans ->
+        | NFile i when List.exists (fun s -> match s with UAbs sp -> starts_with sp p | URel -> false) scans && not (List.mem p c.links) ->
             Some { l_path = p; l_id = (c.dev, i); l_len = n_of_int (List.length (fs_content !fs i)) }
         | _ -> None) (dedup_keys [] (!fs).fs_nodes) in
     let scan_regs = List.filter_map (scan_registers lens) files_under in
@@ -252,6 +253,7 @@ let validate_cmd () =
     | ["fsfile"; p; dev; ino; data] ->
         !c.dev <- n_of_string dev;
         !c.fs0 <- set_data (set_node !c.fs0 (path_of_string p) (NFile (n_of_string ino))) (n_of_string ino) (bytes_of_hex data)
+    | ["fslink"; p] -> !c.links <- path_of_string p :: !c.links
     | "pre" :: seq :: ev -> !c.pre <- (int_of_string seq, parse_event ev) :: !c.pre
     | "nodes" :: l :: rest ->
         let ns = List.map (fun s -> match String.split_on_char '=' s with
